@@ -73,7 +73,7 @@ class URI(Signature):
 
     @uri.register(bytearray)
     def uri_bytearray(self, val):
-        self.uri = val.decode('latin-1')
+        self.uri = val.decode('utf-8', 'surrogateescape')
 
     def __init__(self):
         super(URI, self).__init__()
@@ -81,7 +81,7 @@ class URI(Signature):
 
     def __bytearray__(self):
         _bytes = super(URI, self).__bytearray__()
-        _bytes += self.uri.encode()
+        _bytes += self.uri.encode('utf-8', 'surrogateescape')
         return _bytes
 
     def parse(self, packet):
@@ -424,7 +424,7 @@ class RegularExpression(Signature):
 
     @regex.register(bytearray)
     def regex_bytearray(self, val):
-        self.regex = val.decode('latin-1')
+        self.regex = val.decode('utf-8', 'surrogateescape')
 
     def __init__(self):
         super(RegularExpression, self).__init__()
@@ -432,7 +432,7 @@ class RegularExpression(Signature):
 
     def __bytearray__(self):
         _bytes = super(RegularExpression, self).__bytearray__()
-        _bytes += self.regex.encode()
+        _bytes += self.regex.encode('utf-8', 'surrogateescape')
         return _bytes
 
     def parse(self, packet):
@@ -637,7 +637,7 @@ class NotationData(Signature):
 
     @name.register(bytearray)
     def name_bytearray(self, val):
-        self.name = val.decode('latin-1')
+        self.name = val.decode('utf-8', 'surrogateescape')
 
     @sdproperty
     def value(self):
@@ -651,7 +651,7 @@ class NotationData(Signature):
     @value.register(bytearray)
     def value_bytearray(self, val):
         if NotationDataFlags.HumanReadable in self.flags:
-            self.value = val.decode('latin-1')
+            self.value = val.decode('utf-8', 'surrogateescape')
 
         else:  # pragma: no cover
             self._value = val
@@ -665,10 +665,13 @@ class NotationData(Signature):
     def __bytearray__(self):
         _bytes = super(NotationData, self).__bytearray__()
         _bytes += self.int_to_bytes(sum(self.flags)) + b'\x00\x00\x00'
-        _bytes += self.int_to_bytes(len(self.name), 2)
-        _bytes += self.int_to_bytes(len(self.value), 2)
-        _bytes += self.name.encode()
-        _bytes += self.value if isinstance(self.value, bytearray) else self.value.encode()
+        # the two length fields count octets of the encoded name and value
+        name = self.name.encode('utf-8', 'surrogateescape')
+        value = self.value if isinstance(self.value, bytearray) else self.value.encode('utf-8', 'surrogateescape')
+        _bytes += self.int_to_bytes(len(name), 2)
+        _bytes += self.int_to_bytes(len(value), 2)
+        _bytes += name
+        _bytes += value
         return bytes(_bytes)
 
     def parse(self, packet):
@@ -767,7 +770,7 @@ class SignersUserID(Signature):
 
     @userid.register(bytearray)
     def userid_bytearray(self, val):
-        self.userid = val.decode('latin-1')
+        self.userid = val.decode('utf-8', 'surrogateescape')
 
     def __init__(self):
         super(SignersUserID, self).__init__()
@@ -775,7 +778,7 @@ class SignersUserID(Signature):
 
     def __bytearray__(self):
         _bytes = super(SignersUserID, self).__bytearray__()
-        _bytes += self.userid.encode()
+        _bytes += self.userid.encode('utf-8', 'surrogateescape')
         return _bytes
 
     def parse(self, packet):
@@ -811,7 +814,7 @@ class ReasonForRevocation(Signature):
 
     @string.register(bytearray)
     def string_bytearray(self, val):
-        self.string = val.decode('latin-1')
+        self.string = val.decode('utf-8', 'surrogateescape')
 
     def __init__(self):
         super(ReasonForRevocation, self).__init__()
@@ -821,7 +824,7 @@ class ReasonForRevocation(Signature):
     def __bytearray__(self):
         _bytes = super(ReasonForRevocation, self).__bytearray__()
         _bytes += self.int_to_bytes(self.code)
-        _bytes += self.string.encode()
+        _bytes += self.string.encode('utf-8', 'surrogateescape')
         return _bytes
 
     def parse(self, packet):
